@@ -34,6 +34,19 @@ def quote(text, q='"', escape_other=False, raw_newline=False):
     return q + "".join(out) + q
 
 
+def quote_hex(text, upper, q='"'):
+    """the quoted rendering that spells every non-ASCII character as a \\xhh / \\uhhhh / \\Uhhhhhhhh escape, digits in lower or UPPER case"""
+    out = []
+    for ch in text:
+        o = ord(ch)
+        if o < 128:
+            out.append(quote(ch, q)[1:-1])
+            continue
+        digits = ("%02x" % o) if o < 0x100 else ("%04x" % o) if o < 0x10000 else ("%08x" % o)
+        out.append("\\" + ("x" if o < 0x100 else "u" if o < 0x10000 else "U") + (digits.upper() if upper else digits))
+    return q + "".join(out) + q
+
+
 BARE_OK = re.compile(r"^[^\#\:\,\=\(\)\[\]\"\'\r\n\t]+$")
 
 
@@ -64,7 +77,7 @@ def _gap(default, alts, meta="gap"):
 
 
 SP_ALTS = ["", " ", "  ", "\t"]
-NL_ALTS = ["\n", "\n    ", "  # trailing (comment) = [x], \"q\"\n  "]
+NL_ALTS = ["\n", "\n    ", "  # trailing (comment) = [x], \"q\"\n  ", "  # don't count this ( or this [\n  ", "  # 5\" pipe ) ]\n  "]
 COMMENT = "# comment with delimiters ( ) [ ] = , : \" '"
 
 
@@ -113,6 +126,8 @@ def _scalar_item(v, path, role="val"):
         alts = [quote(v[1], '"'), quote(v[1], "'"), quote(v[1], '"', True)]
         if BARE_OK.match(v[1]) and v[1].strip() == v[1] and bare_safe(v[1]):
             alts.append(v[1])
+        if any(ord(ch) > 127 for ch in v[1]):
+            alts += [quote_hex(v[1], False), quote_hex(v[1], True), quote_hex(v[1], True, "'")]  # hexadecimal escapes, digits in either case
         if "\n" in v[1]:
             alts.append(quote(v[1], '"', raw_newline=True))  # raw newline inside the quotes
         if "\r\n" in v[1] and "\r" not in v[1].replace("\r\n", ""):
